@@ -20,7 +20,7 @@ MATH_ENV_NAMES = (
 )
 SPECIAL_COMMANDS = {'newcommand', 'renewcommand', 'providecommand'}
 BRACKETS_DELIMITERS = {
-    '(', ')', '<', '>', '[', ']', '{', '}', r'\{', r'\}', '.' '|', r'\langle',
+    '(', ')', '<', '>', '[', ']', '{', '}', r'\{', r'\}', '.', '|', r'\langle',
     r'\rangle', r'\lfloor', r'\rfloor', r'\lceil', r'\rceil', r'\ulcorner',
     r'\urcorner', r'\lbrack', r'\rbrack'
 }
